@@ -79,6 +79,76 @@ theorem strm_init_resets (strm : Stream) (junk : Nat) :
   intro code action
   rw [prog_error_cases code _ action (Or.inr (Or.inl ⟨_, rfl, by simp⟩))]
 
+/-- Re-initialisation. Whatever the handle did before — any earlier coder with any supported actions, any
+    `sequence` (END, ERROR, a flush in progress), `allow_buf_error`, totals; a fresh handle or one after `lzma_end` —
+    after `lzma_strm_init` + a coder's init function (which only ENABLES its own actions) the supported actions are
+    EXACTLY the new coder's set `mask`, `sequence = ISEQ_RUN`, `allow_buf_error = false`, both totals are 0 and a
+    coder is installed. Hence every action outside `mask` is LZMA_PROG_ERROR with nothing changed and the coder not
+    called, and every action in `mask` reaches the new coder (given non-NULL-or-empty buffers and default reserved
+    members). No supported action of a previous coder survives. -/
+theorem reinit_resets_supported (strm : Stream) (mask junk : Nat) (hm : mask < 32) :
+    ∃ i, (installCoder strm mask junk).internal = some i
+      ∧ i.supported = mask ∧ i.sequence = .run ∧ i.allowBufError = false ∧ i.hasCode = true
+      ∧ (installCoder strm mask junk).totalIn = 0 ∧ (installCoder strm mask junk).totalOut = 0
+      ∧ (∀ code action, mask.testBit action = false →
+          lzmaCode code (installCoder strm mask junk) action = ⟨installCoder strm mask junk, LZMA_PROG_ERROR, none⟩)
+      ∧ (∀ (c : Call), mask.testBit c.action = true → (c.nextIn = none → c.availIn = 0) →
+          (c.nextOut = none → c.availOut = 0) → c.reserved = {} →
+          (step (installCoder strm mask junk) c).called.isSome = true) := by
+  have hsup : ∀ s : Stream, ∃ i, (installCoder s mask junk).internal = some i ∧ i.supported = mask
+      ∧ i.sequence = .run ∧ i.allowBufError = false ∧ i.hasCode = true := by
+    intro s
+    cases hs : s.internal <;> simp [installCoder, lzmaStrmInit, hs]
+  obtain ⟨i, hi, h1, h2, h3, h4⟩ := hsup strm
+  refine ⟨i, hi, h1, h2, h3, h4, rfl, rfl, ?_, ?_⟩
+  · intro code action hbit
+    exact prog_error_cases code _ action (Or.inr (Or.inl ⟨i, hi, by rw [h1]; exact hbit⟩))
+  · intro c hbit hin hout hres
+    have ha : c.action ≤ 4 := by
+      by_cases h : c.action ≤ 4
+      · exact h
+      · exfalso
+        have : mask.testBit c.action = false := by
+          apply Nat.testBit_lt_two_pow
+          calc mask < 32 := hm
+            _ = 2 ^ 5 := rfl
+            _ ≤ 2 ^ c.action := Nat.pow_le_pow_right (by decide) (by omega)
+        rw [this] at hbit; cases hbit
+    have hI : (c.apply (installCoder strm mask junk)).internal = some i := by rw [apply_internal, hi]
+    have hg : gate (c.apply (installCoder strm mask junk)) c.action = none := by
+      have hs : sanityFail (c.apply (installCoder strm mask junk)) c.action = false := by
+        unfold sanityFail
+        rw [hI]
+        have e1 : (c.apply (installCoder strm mask junk)).nextIn = c.nextIn := rfl
+        have e2 : (c.apply (installCoder strm mask junk)).availIn = c.availIn := rfl
+        have e3 : (c.apply (installCoder strm mask junk)).nextOut = c.nextOut := rfl
+        have e4 : (c.apply (installCoder strm mask junk)).availOut = c.availOut := rfl
+        rw [e1, e2, e3, e4]
+        have hin' : (c.nextIn.isNone && c.availIn != 0) = false := by
+          cases hn : c.nextIn <;> simp [hin, hn]
+        have hout' : (c.nextOut.isNone && c.availOut != 0) = false := by
+          cases hn : c.nextOut <;> simp [hout, hn]
+        simp [hin', hout', h4, actionRejected, h1, hbit]
+        simp [LZMA_ACTION_MAX, LZMA_FULL_BARRIER]; omega
+      have hb : (c.apply (installCoder strm mask junk)).reserved.bad = false := by
+        have : (c.apply (installCoder strm mask junk)).reserved = c.reserved := rfl
+        rw [this, hres]; rfl
+      simp [gate, hs, hb]
+    have hsw : seqSwitch i c.action (c.apply (installCoder strm mask junk)).availIn = .ok (seqOfAction c.action) := by
+      have hcases : c.action = 0 ∨ c.action = 1 ∨ c.action = 2 ∨ c.action = 3 ∨ c.action = 4 := by omega
+      unfold seqSwitch
+      rw [h2]
+      rcases hcases with h | h | h | h | h <;> rw [h] <;> simp [seqOfAction, LZMA_RUN, LZMA_SYNC_FLUSH, LZMA_FULL_FLUSH, LZMA_FINISH, LZMA_FULL_BARRIER]
+    unfold step
+    rw [lzmaCode_ok hg hI hsw]
+    rfl
+
+/-- The previous coder's actions really are gone: an easy-encoder handle (all five actions) re-initialised as a
+    decoder (RUN, FINISH) rejects SYNC_FLUSH; then re-initialised as the MicroLZMA encoder (FINISH only) rejects RUN. -/
+example : (lzmaCode (const 1 1 0) (installCoder (exIn .finish true) 9) LZMA_SYNC_FLUSH).ret = LZMA_PROG_ERROR
+    ∧ (lzmaCode (const 1 1 0) (installCoder (installCoder (exIn .end_) 9) 8) LZMA_RUN).ret = LZMA_PROG_ERROR
+    ∧ (lzmaCode (const 1 1 0) (installCoder (exIn .error true) 9) LZMA_RUN).ret = LZMA_OK := by decide
+
 /-! ### 2. Reserved members -/
 
 /-- Any reserved member that is not at its default makes a call that passed the sanity checks return
@@ -590,6 +660,13 @@ theorem gate_table_bridge : Gen.C11.gateTable = modelGateTable := by decide
 theorem supported_per_coder :
     Gen.C11.supported.all (fun nm => documentedSupported nm.1 == some nm.2) = true
     ∧ 16 ≤ Gen.C11.supported.length := by decide
+
+/-- Re-initialisation in the REAL code: for every ordered pair (A, B) of public init functions (and the stub with
+    all five actions as A), initialising a handle for A and then for B WITHOUT `lzma_end` leaves exactly B's
+    documented supported actions (19 × 18 pairs, each obtained by running the real init functions). -/
+theorem reinit_supported_bridge :
+    Gen.C11.reinitSupported.all (fun r => documentedSupported r.2.1 == some r.2.2) = true
+    ∧ Gen.C11.reinitSupported.length = (Gen.C11.supported.length + 1) * Gen.C11.supported.length := by decide +kernel
 
 /-- The enum values the model uses are the ones in api/lzma/base.h and common.h. -/
 theorem enum_values_bridge :
